@@ -8,6 +8,7 @@ import (
 
 	"verifharness/drv/c03"
 	"verifharness/drv/c05"
+	"verifharness/drv/c14"
 	"verifharness/drv/c20"
 	execdrv "verifharness/drv/exec"
 	rxdrv "verifharness/drv/reactive"
@@ -16,6 +17,7 @@ import (
 var cmds = map[string]func([]string) error{
 	"c03": c03.Main,
 	"c05": c05.Main,
+	"c14": c14.Main,
 	"c20": c20.Main,
 	"exec": execdrv.Main,
 	"reactive": rxdrv.Main,
